@@ -671,9 +671,9 @@ func runC09(c *Ctx) {
 		root := c.Fn("(*dht.IpfsDHT).handleNewStream")
 		reach := p.Reachable(root)
 		allowed := map[string]string{
-			"dht/internal.init$lit":                  "package initialiser",
+			"dht/internal.init$lit":                   "package initialiser",
 			"dht/internal.multibaseB32Encode":         "constant valid encoding",
-			"dht/internal.Hash":                      "constant valid hash function code",
+			"dht/internal.Hash":                       "constant valid hash function code",
 			"dht/internal.KeyAsAttribute":             "constant valid encoding",
 			"dht/internal.tryFormatLoggableRecordKey": "constant valid encoding",
 		}
